@@ -1240,6 +1240,12 @@ func (w *c07World) step() bool {
 			kind = "kv-cache-full"
 		}
 		tag := ""
+		if w.cfg.Kind == "swa" || w.cfg.Kind == "wrapper" {
+			tag = ":swa"
+			if w.cfg.Parallel > 1 {
+				tag = ":swa-parallel"
+			}
+		}
 		for _, t := range w.slotTag {
 			if t == "after-failed-shift" {
 				tag = ":after-failed-shift"
@@ -1444,7 +1450,8 @@ func c07Reference(cfg *c07Cfg, r *c07Req) c07Expect {
 			}
 		}
 		win = append(win, int(t))
-		if e.Eval > 100000 {
+		if e.Eval > 1000 {
+			e.Reason = -1 // not terminating (the generator never issues such a request)
 			break
 		}
 	}
